@@ -1,6 +1,7 @@
 package runh
 
 import (
+	"encoding/json"
 	"fmt"
 
 	"github.com/attestantio/go-eth2-client/spec/altair"
@@ -11,7 +12,9 @@ import (
 	"github.com/bloxapp/ssv-spec/types/testingutils"
 	ssz "github.com/ferranbt/fastssz"
 
+	"github.com/bloxapp/ssv/protocol/v2/message"
 	"github.com/bloxapp/ssv/protocol/v2/ssv/queue"
+	ssvtypes "github.com/bloxapp/ssv/protocol/v2/types"
 )
 
 // ---- duties and consensus values ----
@@ -274,6 +277,20 @@ func WirePartial(id spectypes.MessageID, m *spectypes.SignedPartialSignatureMess
 		panic(err)
 	}
 	return &Wire{spectypes.SSVMessage{MsgType: spectypes.SSVPartialSignatureMsgType, MsgID: id, Data: b}}
+}
+
+// WireExecuteDuty is the event message operator/validator.CreateDutyExecuteMsg builds (same
+// encoding), addressed with the given message id.
+func WireExecuteDuty(id spectypes.MessageID, duty *spectypes.Duty) *Wire {
+	edd, err := json.Marshal(ssvtypes.ExecuteDutyData{Duty: duty})
+	if err != nil {
+		panic(err)
+	}
+	data, err := (&ssvtypes.EventMsg{Type: ssvtypes.ExecuteDuty, Data: edd}).Encode()
+	if err != nil {
+		panic(err)
+	}
+	return &Wire{spectypes.SSVMessage{MsgType: message.SSVEventMsgType, MsgID: id, Data: data}}
 }
 
 func (w *Wire) Decode() *queue.DecodedSSVMessage {
